@@ -120,6 +120,11 @@ def programs(tier):
             ms = [{"id": 0, "shape": first_shapes[0], "types": {first_shapes[0][0]: "K0", "y": a}, "prio": 0},
                   {"id": 1, "shape": first_shapes[1], "types": {first_shapes[1][0]: "O", "y": b}, "prio": 0}]
             yield "2c:type-second,strictly-positional-first", ms, [(m, n) for n in names for m in ("K0()", "K3()")], None
+    # a parameter that is itself called "type" (the generated code must not confuse it with the builtin it uses)
+    xt = "x:N:0 type:N:0"
+    for (a, b) in itertools.combinations(sub, 2):
+        ms = [{"id": 0, "shape": xt, "types": {"x": "K0", "type": a}, "prio": 0}, {"id": 1, "shape": xt, "types": {"x": "O", "type": b}, "prio": 0}]
+        yield "2n:parameter-named-type", ms, [(m, n) for n in names for m in ("K0()", "K3()", "5")], None
     # type[...] in the second position only
     for (a, b) in itertools.combinations(sub, 2):
         ms = [{"id": 0, "shape": xy, "types": {"x": "K0", "y": a}, "prio": 0}, {"id": 1, "shape": xy, "types": {"x": "O", "y": b}, "prio": 0}]
@@ -224,7 +229,7 @@ def main(tier):
              "type[class with a custom metaclass], type[list[ABC]]}; passed classes include ABCs, a virtual subclass, classes with a custom "
              "metaclass, an Enum, a runtime protocol, the metaclass itself; all method "
              "sets of <= 3 over one position, pairs over two positions (type[...] first or second, ordinary class in the other), "
-             "call_next chains and recurse into tuple elements; passed objects: classes, parametrised generics, nested "
+             "a second parameter literally named 'type', call_next chains and recurse into tuple elements; passed objects: classes, parametrised generics, nested "
              "parametrisations, typing.List, typing.Any, plain instances; oracle R1-R3 with ref_subtype; abstains (monitor only) when "
              "two applicable type[...] annotations have unrelated generic origins; non-trivial = >= 2 applicable methods",
         assumptions=["ref_subtype of vt/annot.py: subclass for classes; same-or-subclass origin with argument-wise subtyping for generics"],
